@@ -18,6 +18,44 @@ type guardPred func(i *ssa.If) (dir bool, ok bool)
 // edge of a guard matching pred — in its own function or, for closures, at
 // the site where the closure was created (recursively up the closure tree).
 // It returns the guard found.
+// predicateView: when an If tests the result of a small repository predicate
+// (`if rs.isLoaded()`, `if !s.isQueueing()`), the boolean expression that
+// predicate returns, as a synthetic If, so that guard patterns written for
+// the inlined form still match. flip: the view is the negation.
+func (p *Prog) predicateView(i *ssa.If) (*ssa.If, bool) {
+	v := i.Cond
+	flip := false
+	if u, ok := v.(*ssa.UnOp); ok && u.Op == token.NOT {
+		v, flip = u.X, true
+	}
+	call, ok := v.(*ssa.Call)
+	if !ok {
+		return nil, false
+	}
+	sf := call.Call.StaticCallee()
+	if sf == nil || !p.isRepoFn(sf) || len(sf.Blocks) == 0 || len(sf.Blocks) > 6 {
+		return nil, false
+	}
+	var ret *ssa.Return
+	n := 0
+	for _, b := range sf.Blocks {
+		for _, in := range b.Instrs {
+			if r, ok := in.(*ssa.Return); ok {
+				ret = r
+				n++
+			}
+		}
+	}
+	if n != 1 || len(ret.Results) != 1 {
+		return nil, false
+	}
+	switch ret.Results[0].(type) {
+	case *ssa.BinOp, *ssa.UnOp:
+		return &ssa.If{Cond: ret.Results[0]}, flip
+	}
+	return nil, false
+}
+
 func (p *Prog) guardedBy(in ssa.Instruction, pred guardPred) *ssa.If {
 	b := in.Block()
 	fn := b.Parent()
@@ -27,6 +65,13 @@ func (p *Prog) guardedBy(in ssa.Instruction, pred guardPred) *ssa.If {
 			continue
 		}
 		dir, ok := pred(i)
+		if !ok {
+			if v, flip := p.predicateView(i); v != nil {
+				if d2, ok2 := pred(v); ok2 {
+					dir, ok = d2 != flip, true
+				}
+			}
+		}
 		if !ok {
 			continue
 		}
